@@ -615,43 +615,99 @@ func ruleGrpcFlags(c *Ctx) {
 		if kind == "" {
 			continue
 		}
+		// one-level resolution of a local that is defined once (`noop := res.X.Status == …`)
+		defs := map[types.Object][]ast.Expr{}
 		ast.Inspect(fd.Body, func(nd ast.Node) bool {
-			kv, ok := nd.(*ast.KeyValueExpr)
+			if as, ok := nd.(*ast.AssignStmt); ok && len(as.Lhs) == len(as.Rhs) {
+				for i, l := range as.Lhs {
+					if id, ok := l.(*ast.Ident); ok {
+						if o := info.ObjectOf(id); o != nil {
+							defs[o] = append(defs[o], as.Rhs[i])
+						}
+					}
+				}
+			}
+			return true
+		})
+		ast.Inspect(fd.Body, func(nd ast.Node) bool {
+			cl, ok := nd.(*ast.CompositeLit)
 			if !ok {
 				return true
 			}
-			flag := exprString(kv.Key)
-			want, isFlag := flagMeaning[flag]
-			be, ok := ast.Unparen(kv.Value).(*ast.BinaryExpr)
-			if !isFlag || !ok || be.Op != token.EQL {
+			tv, okT := info.Types[cl]
+			if !okT || tv.Type == nil {
 				return true
 			}
-			se, ok := ast.Unparen(be.Y).(*ast.SelectorExpr)
-			if !ok {
+			nt, okN := tv.Type.(*types.Named)
+			if !okN || !strings.HasSuffix(nt.Obj().Name(), "Response") {
 				return true
 			}
-			cn, ok := info.Uses[se.Sel].(*types.Const)
-			if !ok || !isNamed(cn.Type(), pkgTApi, "StatusCode") {
-				return true
+			for _, el := range cl.Elts {
+				kv, ok := el.(*ast.KeyValueExpr)
+				if !ok {
+					continue
+				}
+				flag := exprString(kv.Key)
+				want, isFlag := flagMeaning[flag]
+				if !isFlag {
+					continue
+				}
+				if vt, ok := info.Types[kv.Value]; !ok || vt.Type == nil || !types.Identical(vt.Type.Underlying(), types.Typ[types.Bool]) {
+					continue
+				}
+				n++
+				key := fmt.Sprintf("flag/%s/%s", funcName(fd), flag)
+				val := ast.Unparen(kv.Value)
+				if id, ok := val.(*ast.Ident); ok {
+					if ds := defs[info.ObjectOf(id)]; len(ds) == 1 {
+						val = ast.Unparen(ds[0])
+					}
+				}
+				be, ok := val.(*ast.BinaryExpr)
+				var cn *types.Const
+				var lhsE ast.Expr
+				if ok && (be.Op == token.EQL || be.Op == token.NEQ) {
+					for _, pair := range [][2]ast.Expr{{be.X, be.Y}, {be.Y, be.X}} {
+						if se, ok := ast.Unparen(pair[1]).(*ast.SelectorExpr); ok {
+							if k, ok := info.Uses[se.Sel].(*types.Const); ok && isNamed(k.Type(), pkgTApi, "StatusCode") {
+								cn, lhsE = k, pair[0]
+								break
+							}
+						}
+					}
+				}
+				if cn == nil {
+					c.check(false, key+"/own-status", kv.Pos(), flag+" is computed from the status of "+kind, flag+" is computed as "+exprString(kv.Value)+", not as a comparison of the kernel status of "+kind+" with a status constant: the flag no longer follows the status ("+want+") the reply is rendered from")
+					continue
+				}
+				lhs := exprString(lhsE)
+				c.check(strings.HasSuffix(lhs, "."+kind+".Status"), key+"/own-status", kv.Pos(), flag+" is computed from the status of "+kind, flag+" is computed from "+lhs+", not from the status of "+kind)
+				produced := m.statusesOf(kind)
+				if be.Op == token.NEQ {
+					// status != C on a successful reply: the other successful statuses the coroutine produces must be exactly the flagged one
+					rest := []string{}
+					for _, s := range []string{"StatusOK", "StatusCreated", "StatusNoContent"} {
+						if produced[s] && s != cn.Name() {
+							rest = append(rest, s)
+						}
+					}
+					c.check(len(rest) == 1 && rest[0] == want, key+"/constant", kv.Pos(), fmt.Sprintf("%s ⇔ %s, produced by the %s coroutine", flag, want, kind), fmt.Sprintf("%s is computed as status != %s, which holds for %v; the outcome it reports is %s", flag, cn.Name(), rest, want))
+					continue
+				}
+				okConst := cn.Name() == want && produced[cn.Name()]
+				detail := fmt.Sprintf("%s is computed as status == %s, but the outcome it reports is %s", flag, cn.Name(), want)
+				if cn.Name() == want {
+					detail = fmt.Sprintf("%s compares with %s, which the %s coroutine never produces", flag, cn.Name(), kind)
+				} else if !produced[cn.Name()] {
+					detail += fmt.Sprintf(" (and the %s coroutine never produces %s: the flag is always false)", kind, cn.Name())
+				}
+				c.check(okConst, key+"/constant", kv.Pos(), fmt.Sprintf("%s ⇔ %s, produced by the %s coroutine", flag, want, kind), detail)
 			}
-			n++
-			key := fmt.Sprintf("flag/%s/%s", funcName(fd), flag)
-			lhs := exprString(be.X)
-			c.check(strings.HasSuffix(lhs, "."+kind+".Status"), key+"/own-status", kv.Pos(), flag+" is computed from the status of "+kind, flag+" is computed from "+lhs+", not from the status of "+kind)
-			produced := m.statusesOf(kind)
-			okConst := cn.Name() == want && produced[cn.Name()]
-			detail := fmt.Sprintf("%s is computed as status == %s, but the outcome it reports is %s", flag, cn.Name(), want)
-			if cn.Name() == want {
-				detail = fmt.Sprintf("%s compares with %s, which the %s coroutine never produces", flag, cn.Name(), kind)
-			} else if !produced[cn.Name()] {
-				detail += fmt.Sprintf(" (and the %s coroutine never produces %s: the flag is always false)", kind, cn.Name())
-			}
-			c.check(okConst, key+"/constant", kv.Pos(), fmt.Sprintf("%s ⇔ %s, produced by the %s coroutine", flag, want, kind), detail)
 			return true
 		})
 	}
 	c.count("grpc_outcome_flags", n)
-	c.floor("gRPC outcome flags", n, 11)
+	c.floor("gRPC outcome flags", n, 12)
 }
 
 // ruleHttpCode (R13): the HTTP status is status/100 and is an intended HTTP code for every
